@@ -1,8 +1,9 @@
 (* C13 — Strategies are isolated from each other and from callback errors.  Statements only.  Non-interference is proved for the matcher
-   (one market update, any number of strategies and orders); the composite statement over whole runs is established by the metamorphic
+   (one market update, any number of strategies and orders); every other operation of the loop has a frame theorem (a request / a package writes at most the order it names; the sweep is pointwise);
+   the composite statement over whole runs (a run projected on one strategy = that strategy's run alone) is established by the metamorphic
    correspondence, not proved. *)
 From Coq Require Import ZArith List Bool.
-From V Require Import Model.Num Model.Status Model.Sim Model.SimLoop Gen.StatusC Model.SimGuard Proofs.SimIsolationP Proofs.SimTradedP Proofs.SimNamesP.
+From V Require Import Model.Num Model.Status Model.Sim Model.SimLoop Gen.StatusC Model.SimGuard Proofs.SimIsolationP Proofs.SimTradedP Proofs.SimNamesP Proofs.SimLinkP Proofs.SimFrameP.
 Open Scope Z_scope.
 
 (* NON-INTERFERENCE OF THE MATCHER under strategy isolation: what the simulated matching of a market update does to the orders of a strategy
@@ -67,3 +68,24 @@ Proof. intros tb cf b ans orders H. unfold process_sim_orders. rewrite H. reflex
 Theorem C13_truncated_script : forall cf now st mid s pre rest,
   fold_left (request cf now st mid) (pre ++ rest) s = fold_left (request cf now st mid) rest (fold_left (request cf now st mid) pre s).
 Proof. intros. apply fold_left_app. Qed.
+
+(* FRAME CONDITIONS of the other operations of the loop (Proofs/SimFrameP.v; any state with pairwise different market ids, any request, any package):
+   a request - placement, cancel, update, replace, also one naming another market of the run - leaves every order other than the one it names
+   exactly as it is, in every market ... *)
+Theorem C13_request_frame : forall cf now st mid s a k o, NoDup (map mk_id (s_markets s)) ->
+  SimFrameP.writes mid a <> Some k -> SimLinkP.at_key (s_markets s) k o -> SimLinkP.at_key (s_markets (request cf now st mid s a)) k o.
+Proof. exact SimFrameP.request_frame. Qed.
+(* ... so a whole strategy call (all the requests one strategy makes at an update) leaves alone every order none of its requests names ... *)
+Theorem C13_strategy_call_frame : forall cf now st mid acts s k o, NoDup (map mk_id (s_markets s)) ->
+  Forall (fun a => SimFrameP.writes mid a <> Some k) acts -> SimLinkP.at_key (s_markets s) k o ->
+  SimLinkP.at_key (s_markets (fold_left (request cf now st mid) acts s)) k o.
+Proof. exact SimFrameP.requests_frame. Qed.
+(* ... the execution of a package (any kind, any answer of the simulated exchange, including the replacement order a replace creates) leaves
+   every order other than the package's own exactly as it is ... *)
+Theorem C13_package_frame : forall tb cf now s p k o, NoDup (map mk_id (s_markets s)) ->
+  SimLinkP.pkey p <> k -> SimLinkP.at_key (s_markets s) k o -> SimLinkP.at_key (s_markets (exec_pkg tb cf now s p)) k o.
+Proof. exact SimFrameP.exec_pkg_frame. Qed.
+Print Assumptions C13_package_frame.
+(* ... and the completion sweep treats every order on its own *)
+Theorem C13_sweep_is_pointwise : forall cf now a b, completion_sweep cf now (a ++ b) = completion_sweep cf now a ++ completion_sweep cf now b.
+Proof. intros. apply map_app. Qed.
